@@ -1843,6 +1843,12 @@ func (q *checker) bcheckExprBinaryOp1(op t.ID, lhs *a.Expr, lb bounds, rhs *a.Ex
 			return nb, nil
 		case t.IDXBinaryTildeModShiftL:
 			nb, _ := lb.TryLsh(rb)
+			if nb[1].Cmp(typeBounds[1]) > 0 {
+				// The ideal result can exceed the type, so the modular result
+				// can wrap around to anything in the type, including values
+				// below the shifted lower bound.
+				nb[0] = typeBounds[0]
+			}
 			nb[1] = min(nb[1], typeBounds[1])
 			return nb, nil
 		case t.IDXBinaryShiftR:
